@@ -24,6 +24,10 @@ void row_scale(ParCSRMatrix* A, ParVector& rhs)
 	    {
 	        A->on_proc->vals[j] *= scale;
 	    }
+	    for (int j = A->off_proc->idx1[i]; j < A->off_proc->idx1[i+1]; j++)
+	    {
+	        A->off_proc->vals[j] *= scale;
+	    }
 	    rhs[i] *= scale;
     }
 }
